@@ -63,6 +63,11 @@ var (
 	ScratchDir string
 )
 
+// LockSeamAll: every simulated run of this process routes lock operations through the kernel
+// (set by the worker for properties that are built from the lock-instrumented scratch copy
+// without the race detector; C13 installs its hooks itself).
+var LockSeamAll bool
+
 // Setup prepares process-wide state. It returns an error for anything that makes verdicts
 // untrustworthy (the caller exits 2).
 func Setup(tmpDir string) error {
@@ -221,6 +226,13 @@ func RunSim(t *testing.T, seed uint64, pol sim.Policy, maxSteps int, horizon tim
 				k.ForeignTimers = DialSeam
 			}
 			body, freeze := setup(k)
+			if LockSeamAll {
+				// builds whose lock calls go through the kernel (C03): a goroutine of the program
+				// under test that wants a lock a parked task holds waits in the kernel, not in
+				// the mutex
+				installLockHooks(k)
+				defer removeLockHooks()
+			}
 			k.Go("client", body)
 			res.Verdict = k.Run()
 			res.Steps = k.Steps
